@@ -312,6 +312,14 @@ func (d *Dir) Persist(kind string, id uint64, w index.WriterTo, closeCh chan str
 	if stage != "" {
 		kv = append(kv, "stage", stage)
 	}
+	if err != nil && d.Path != "" {
+		// the directory reported a failure: what is under the item's name now? (-1: nothing)
+		left := int64(-1)
+		if fi, serr := os.Stat(filepath.Join(d.Path, fmt.Sprintf("%012x%s", id, kind))); serr == nil {
+			left = fi.Size()
+		}
+		kv = append(kv, "left", left)
+	}
 	if err == nil && d.Path == "" {
 		// the in-memory directory keeps segments only and nothing durable
 		kv = append(kv, "ents", []SnpEnt{}, "docs", []Doc{})
